@@ -6,6 +6,8 @@ cd "$(dirname "$0")"
 mkdir -p ../build
 exec 9>../build/.mk.lock
 flock 9
+# no single coqc may take the machine down (a runaway vm_compute once reached 56 GB)
+ulimit -v 20000000
 { echo "-Q . HV"; find Lib Gen Model Proofs Props -name '*.v' 2>/dev/null | LC_ALL=C sort; } > _CoqProject.new
 if ! cmp -s _CoqProject.new _CoqProject 2>/dev/null; then mv _CoqProject.new _CoqProject; rm -f Makefile.coq Makefile.coq.conf; else rm -f _CoqProject.new; fi
 [ -f Makefile.coq ] || coq_makefile -f _CoqProject -o Makefile.coq >/dev/null
